@@ -1371,7 +1371,11 @@ impl DtlsInner {
                 let crypto = create_session_crypto(keys.clone())?;
                 let state = DtlsState::Connected(Arc::new(crypto), ctx.srtp_profile);
                 *self.state.lock() = state.clone();
+                #[cfg(rustrtc_verif)]
+                crate::verif_hooks::preempt_point("dtls.connected.published").await;
                 self.write_epoch.store(ctx.epoch, Ordering::SeqCst);
+                #[cfg(rustrtc_verif)]
+                crate::verif_hooks::preempt_point("dtls.connected.epoch_stored").await;
                 self.write_seq.store(ctx.sequence_number, Ordering::SeqCst);
                 let _ = self.state_tx.send(state);
                 debug!("DTLS handshake complete (server role) (remote={})", self.conn.remote_addr.read());
@@ -1404,7 +1408,11 @@ impl DtlsInner {
 
                         let state = DtlsState::Connected(Arc::new(crypto), ctx.srtp_profile);
                         *self.state.lock() = state.clone();
+                        #[cfg(rustrtc_verif)]
+                        crate::verif_hooks::preempt_point("dtls.connected.published").await;
                         self.write_epoch.store(ctx.epoch, Ordering::SeqCst);
+                        #[cfg(rustrtc_verif)]
+                        crate::verif_hooks::preempt_point("dtls.connected.epoch_stored").await;
                         self.write_seq.store(ctx.sequence_number, Ordering::SeqCst);
                         let _ = self.state_tx.send(state);
                         debug!("DTLS handshake complete (client role) (remote={})", self.conn.remote_addr.read());
